@@ -220,28 +220,23 @@ pub mod io
 {
     use std::fmt;
 
-    /// Opaque I/O error: breadlog only ever formats it into a log line (or asks for its kind,
-    /// which is then an arbitrary value chosen by the harness through `model::ERR_KIND`).
+    /// Default (fast) variant: an opaque error type. breadlog only formats errors into log lines or asks
+    /// for their kind, which is the arbitrary value the harness put into `model::ERR_KIND`.
+    #[cfg(not(feature = "std-error"))]
     pub struct Error;
+    #[cfg(not(feature = "std-error"))]
     impl Error
     {
         pub fn kind(&self) -> std::io::ErrorKind
         {
-            match unsafe { super::model::ERR_KIND } % 6
-            {
-                0 => std::io::ErrorKind::Other,
-                1 => std::io::ErrorKind::CrossesDevices,
-                2 => std::io::ErrorKind::NotFound,
-                3 => std::io::ErrorKind::PermissionDenied,
-                4 => std::io::ErrorKind::StorageFull,
-                _ => std::io::ErrorKind::Interrupted,
-            }
+            injected_kind()
         }
         pub fn raw_os_error(&self) -> Option<i32>
         {
             None
         }
     }
+    #[cfg(not(feature = "std-error"))]
     impl fmt::Display for Error
     {
         fn fmt(&self, f: &mut fmt::Formatter<'_>) -> fmt::Result
@@ -249,11 +244,41 @@ pub mod io
             f.write_str("injected I/O error")
         }
     }
+    #[cfg(not(feature = "std-error"))]
     impl fmt::Debug for Error
     {
         fn fmt(&self, f: &mut fmt::Formatter<'_>) -> fmt::Result
         {
             f.write_str("injected I/O error")
+        }
+    }
+    #[cfg(not(feature = "std-error"))]
+    pub fn injected() -> Error
+    {
+        Error
+    }
+
+    /// Compatibility variant (feature `std-error`, about five times slower under CBMC because of the
+    /// bit-packed representation): as in the real async-std the error type IS `std::io::Error`. The
+    /// runner switches to it when the sources do not compile against the opaque type.
+    #[cfg(feature = "std-error")]
+    pub use std::io::Error;
+    #[cfg(feature = "std-error")]
+    pub fn injected() -> Error
+    {
+        Error::from(injected_kind())
+    }
+
+    pub fn injected_kind() -> std::io::ErrorKind
+    {
+        match unsafe { super::model::ERR_KIND } % 6
+        {
+            0 => std::io::ErrorKind::Other,
+            1 => std::io::ErrorKind::CrossesDevices,
+            2 => std::io::ErrorKind::NotFound,
+            3 => std::io::ErrorKind::PermissionDenied,
+            4 => std::io::ErrorKind::StorageFull,
+            _ => std::io::ErrorKind::Interrupted,
         }
     }
     pub type Result<T> = std::result::Result<T, Error>;
@@ -297,12 +322,12 @@ pub mod fs
                 MUTATIONS += 1;
                 if fail
                 {
-                    return Err(io::Error);
+                    return Err(io::injected());
                 }
                 let id = path_id(to_str(&path));
                 if id == NONE
                 {
-                    return Err(io::Error);
+                    return Err(io::injected());
                 }
                 if id < NSRC
                 {
@@ -339,12 +364,12 @@ pub mod fs
                 let (k, fail) = begin_op();
                 if !self.is_temp
                 {
-                    return if fail { Err(io::Error) } else { Ok(()) };
+                    return if fail { Err(io::injected()) } else { Ok(()) };
                 }
                 if fail
                 {
                     drain_upto(DRAIN[k & 31]);
-                    return Err(io::Error);
+                    return Err(io::injected());
                 }
                 drain_upto(usize::MAX);
                 Ok(())
@@ -367,20 +392,20 @@ pub mod fs
                 if !self.is_temp
                 {
                     clobber(self.src);
-                    return if fail { Err(io::Error) } else { Ok(()) };
+                    return if fail { Err(io::injected()) } else { Ok(()) };
                 }
                 if fail
                 {
                     // a failing write may still have pushed out part of what was cached
                     drain_upto(DRAIN[k & 31]);
-                    return Err(io::Error);
+                    return Err(io::injected());
                 }
                 let start = T_ACC;
                 let n = buf.len();
                 if start + n > CAP
                 {
                     MODEL_OVERFLOW = true;
-                    return Err(io::Error);
+                    return Err(io::injected());
                 }
                 let mut i = 0;
                 while i < n
@@ -407,12 +432,12 @@ pub mod fs
                 let (k, fail) = begin_op();
                 if !self.is_temp
                 {
-                    return if fail { Err(io::Error) } else { Ok(()) };
+                    return if fail { Err(io::injected()) } else { Ok(()) };
                 }
                 if fail
                 {
                     drain_upto(DRAIN[k & 31]);
-                    return Err(io::Error);
+                    return Err(io::injected());
                 }
                 drain_upto(usize::MAX);
                 Ok(())
@@ -449,13 +474,13 @@ pub mod fs
             MUTATIONS += 1;
             if fail
             {
-                return Err(io::Error);
+                return Err(io::injected());
             }
             let f = path_id(to_str(&from));
             let t = path_id(to_str(&to));
             if f == NONE || t == NONE
             {
-                return Err(io::Error);
+                return Err(io::injected());
             }
             if f != TMP
             {
@@ -469,7 +494,7 @@ pub mod fs
             }
             if !T_LINKED
             {
-                return Err(io::Error);
+                return Err(io::injected());
             }
             T_LINKED = false;
             if t < NSRC
@@ -495,12 +520,12 @@ pub mod fs
             MUTATIONS += 1;
             if fail
             {
-                return Err(io::Error);
+                return Err(io::injected());
             }
             let id = path_id(to_str(&path));
             if id == NONE
             {
-                return Err(io::Error);
+                return Err(io::injected());
             }
             if id < NSRC
             {
@@ -510,7 +535,7 @@ pub mod fs
             }
             if !T_LINKED
             {
-                return Err(io::Error);
+                return Err(io::injected());
             }
             T_LINKED = false;
             if T_AT == NONE
@@ -534,7 +559,7 @@ pub mod fs
             }
             if fail
             {
-                return Err(io::Error);
+                return Err(io::injected());
             }
             Ok(0)
         }
@@ -558,12 +583,12 @@ pub mod fs
             READS += 1;
             if fail
             {
-                return Err(io::Error);
+                return Err(io::injected());
             }
             let id = path_id(to_str(&path));
             if id == NONE || id >= NSRC || !SRC_PRESENT[id] || UNREADABLE[id]
             {
-                return Err(io::Error);
+                return Err(io::injected());
             }
             match &READ_CONTENT[id]
             {
